@@ -26,7 +26,10 @@
   First sentence ("graph to ms and back preserves the model"): §4 (one deme; the F6 counterexample;
   closed instances) and §5 — the composition of C07 and C08 through a bridge between the two ms
   interpreters, for graphs of constant sizes: `toMs_msSem_bridge`, `ms_roundtrip_sem_partial`,
-  `toMs_output_tame`, `ms_roundtrip_sem_tame`, with the witnesses for the hypotheses that are forced.
+  `toMs_output_tame`, `ms_roundtrip_sem_tame`, with the witnesses for the hypotheses that are forced; §6 —
+  acceptance: `from_ms` accepts the command `to_ms` prints (`ms_roundtrip_accepts`, with the stage theorems
+  `toMs_output_parses`, `buildState_never_raises`, `toMs_output_buildState_ok`, `toMs_output_finishDoc_ok`), hence
+  the round trip without the acceptance hypothesis (`ms_roundtrip_sem`).
 
   Chain printer ↔ parser ↔ source: `parser_arity_matches_printer` (the printer emits as many
   tokens as `Ms.arity` demands), `dest_matches_table`, and `Tables.tables_ms_model_arity` /
@@ -38,6 +41,8 @@ import DemesVerif.Proofs.MsRoundTripExamples
 import DemesVerif.Proofs.MsRTExamples
 import DemesVerif.Proofs.MsRTTameExamples
 import DemesVerif.Proofs.MsRTNormExamples
+import DemesVerif.Proofs.MsAccExamples
+import DemesVerif.Proofs.MsAccValidators
 import DemesVerif.Theorems.TablesMsModel
 namespace Demes.Theorems
 open Demes Demes.Ms Demes.Spec.C09
@@ -355,7 +360,8 @@ theorem ms_roundtrip_sem_tame_norm (c : NumCodec) (sa : Growth → String) {g : 
   graphs of constant sizes tried (size change of an ancestor at its descendant's start, extinct
   demes, several pulses at one time, pulses at a deme's start, migrations that start late or stop
   early, three ancestors, years) no other rejection was found; that `from_ms` accepts the `to_ms`
-  output of every `PulsesTame` graph of constant sizes is NOT proved.
+  output of every `PulsesTame` graph of constant sizes is proved in §6 (`ms_roundtrip_accepts`), which
+  discharges this hypothesis (`ms_roundtrip_sem`).
 * `PulsesTame` is what `Tame'` needs of the graph (`toMs_tame_needs_pulse_order`,
   `toMs_tame_needs_pulse_below_one`); `Tame'` itself is the fragment on which C08 proves the lineage
   movements — sufficient, not necessary (`Proofs.MsRT.tame_not_necessary`: pulses `A → B`, `B → C` at
@@ -399,7 +405,225 @@ theorem toMs_tame_needs_pulse_below_one :
           (Proofs.ToMs.finalEvs (inGenerations (tameGraph fullPulse)) 1)) = false :=
   Proofs.MsRT.tame_needs_pulse_below_one
 
-/-! ## Non-vacuity -/
+/-! ## 6. Acceptance: `from_ms` accepts what `to_ms` prints (first sentence; the hypothesis of §5 discharged)
+
+**The statement at full strength** — `from_ms` accepts the command `to_ms` prints for every valid
+ms-expressible graph — is FALSE (`ms_roundtrip_accepts_counterexample_pulse1`: F6, a pulse of proportion 1).
+What is proved: acceptance for every valid ms-expressible graph of constant sizes with tame pulses, through
+the stages of `from_ms`:
+
+1. `toMs_output_parses` — argparse (`parse_known_args`, which runs the converters and validators of every option
+   record: `toMs_output_validators_ok`) accepts the printed command and reads the options the ms interpreter's
+   parser reads (`ArgsAgree`);
+2. `buildState_never_raises` (for EVERY command, not only `to_ms` output) — the event loop of `build_graph`
+   (`convert_population_id`, `epoch_resolve`, the `-es` / `-ej` bookkeeping and its assertion, the matrices)
+   raises nowhere on a command the ms interpreter runs; with the bridge of §5: `toMs_output_buildState_ok`;
+3. `toMs_output_finishDoc_ok` — the final Builder state satisfies an invariant (`Proofs.MsAcc.AccInv`: epochs
+   with positive exact sizes and strictly decreasing end times; a joined deme's open epoch ends before its
+   start time or the deme is transient; ancestors exist at the start time and start strictly later, the
+   proportions are positive and sum to one; pulses have one source different from the destination, a
+   proportion in `(0, 1]`, a time inside both lifetimes; `Proofs.MsAcc.MigWF`: matrix entries are non-zero only
+   inside both lifetimes, at most `4·N0`, rows sum to at most `4·N0` up to the tolerance of the validation),
+   so that "resolve/remove growth_rate in oldest epochs", `_add_migrations_from_matrices`,
+   `_remove_transient_demes` (its three assertions) and `_sort_demes_by_ancestry` succeed, and the document
+   `build_graph` hands to `Builder.resolve` denotes an explicit graph (`Proofs.MsAcc.docGraph`, the value of the
+   fill-in function `Spec.fill` of C03 on the document) that satisfies every clause V0–V13;
+4. C03's completeness (`resolve_of_fill`): `resolve` returns that graph.
+
+`ConstSizes` is forced by the method (see §5), `PulsesTame` by F6 for its first clause; its second clause (the
+order of same-time pulses) is what the fragment `Tame'` of C08 needs — sufficient, not necessary, for
+acceptance (`ms_roundtrip_accepts_order_not_necessary`).  `ExactProportions` is not needed for acceptance
+(`to_ms` renormalises, and the proportions `from_ms` writes sum to exactly one). -/
+
+open Demes.Proofs.MsAcc (prG acceptHyps accepted admixMig)
+
+/-- **Stage 1: the parser.**  argparse accepts the printed command; what it reads agrees with what the
+parser of the ms interpreter reads (`prG g N0 samples`: the header and the option records of `to_ms`, see
+`Proofs/MsAccParse.lean`): the same number of populations, the same initial-state options and events. -/
+theorem toMs_output_parses (c : NumCodec) (sa : Growth → String) {g : Graph} (hv : Spec.validGraph g = true)
+    (hx : MsExpressible g = true) (hcs : ConstSizes g = true) {N0 : Q} (hN : 0 < N0)
+    {samples : Option (List Int)} (hs : samplesOk g samples = true) {toks : List (Tok Growth)}
+    (htoks : toMs g N0 samples = .ok toks) (hc : CodecCovers c toks) :
+    ∃ args, parseKnownArgs (renderG c sa toks) = .ok args ∧ Spec.C08.ArgsAgree args (prG g N0 samples)
+      ∧ Spec.MsSem.parse (renderG c sa toks) = .ok (prG g N0 samples) :=
+  Proofs.MsAcc.toMs_output_parses c sa hv hx hcs hN hs htoks hc
+
+/-- **Stage 1, the validators.**  Every option record argparse builds from the printed command passes the
+validators of its class (`validEvent`: non-negative time, positive population indices, non-negative size /
+rate, split fraction in the unit interval). -/
+theorem toMs_output_validators_ok (c : NumCodec) (sa : Growth → String) {g : Graph} (hv : Spec.validGraph g = true)
+    (hx : MsExpressible g = true) (hcs : ConstSizes g = true) {N0 : Q} (hN : 0 < N0)
+    {samples : Option (List Int)} (hs : samplesOk g samples = true) {toks : List (Tok Growth)}
+    (htoks : toMs g N0 samples = .ok toks) (hc : CodecCovers c toks) :
+    ∃ args, parseKnownArgs (renderG c sa toks) = .ok args
+      ∧ ∀ e ∈ args.initialState ++ args.demographicEvents, validEvent e :=
+  Proofs.MsAcc.toMs_output_validators_ok c sa hv hx hcs hN hs htoks hc
+
+/-- **Stage 2, in general: the event loop of `build_graph` never raises on a command the ms interpreter
+runs.**  For every command on which argparse and the interpreter's parser agree (`ArgsAgree`, e.g. every plain
+command line, `C08.parsers_agree`) and every `N0 > 0`: if the ms interpreter runs the command to the end
+(`runState`: every option addresses a population that exists and has not been joined, matrices have the right
+size), then `buildState` — the whole event loop with `convert_population_id`, `epoch_resolve`, the assertion
+`lm[new_pid] == 0`, `matrixOf`, `finArg` — succeeds.  (The failures of `from_ms` on commands with a meaning —
+F4, F6 — happen after the loop, in `resolve`.) -/
+theorem buildState_never_raises {args : Args} {pr : Spec.MsSem.Parsed} {N0 : Q} {σ : Spec.MsSem.St} (hN : 0 < N0)
+    (ha : Spec.C08.ArgsAgree args pr) (hs : Spec.C08.runState pr N0 = .ok σ) :
+    ∃ s, Proofs.FromMs.buildState args N0 = .ok s :=
+  Proofs.MsAcc.buildState_progress hN ha hs
+
+/-- **Stage 2 at `to_ms`.** -/
+theorem toMs_output_buildState_ok (c : NumCodec) (sa : Growth → String) {g : Graph} (hv : Spec.validGraph g = true)
+    (hx : MsExpressible g = true) (hcs : ConstSizes g = true) {N0 : Q} (hN : 0 < N0)
+    {samples : Option (List Int)} (hs : samplesOk g samples = true) {toks : List (Tok Growth)}
+    (htoks : toMs g N0 samples = .ok toks) (hc : CodecCovers c toks) :
+    ∃ args σ s, parseKnownArgs (renderG c sa toks) = .ok args ∧ Spec.C08.ArgsAgree args (prG g N0 samples)
+      ∧ Spec.C08.runState (prG g N0 samples) N0 = .ok σ ∧ Proofs.FromMs.buildState args N0 = .ok s :=
+  Proofs.MsAcc.toMs_output_buildState_ok c sa hv hx hcs hN hs htoks hc
+
+/-- **Stages 3 and 4: after the event loop.**  `finishDoc` succeeds on the final state of the event loop,
+and `resolve` accepts the document it assembles (with whatever placeholder table for symbolic sizes — there
+are none here) and returns a valid graph. -/
+theorem toMs_output_finishDoc_ok (c : NumCodec) (sa : Growth → String) {g : Graph} (hv : Spec.validGraph g = true)
+    (hx : MsExpressible g = true) (hcs : ConstSizes g = true) (hpt : PulsesTame g = true) {N0 : Q} (hN : 0 < N0)
+    {samples : Option (List Int)} (hs : samplesOk g samples = true) {toks : List (Tok Growth)}
+    (htoks : toMs g N0 samples = .ok toks) (hc : CodecCovers c toks) :
+    ∃ args s doc, parseKnownArgs (renderG c sa toks) = .ok args ∧ Proofs.FromMs.buildState args N0 = .ok s
+      ∧ Proofs.FromMs.finishDoc N0 s = .ok doc
+      ∧ ∀ tab, ∃ g', Demes.resolve (doc.toValue tab) = .ok g' ∧ Spec.validGraph g' = true := by
+  obtain ⟨args, s, _, doc, h1, h2, _, _, _, h3, _, h4, h5⟩ :=
+    Proofs.MsAcc.toMs_output_finishDoc_ok c sa hv hx hcs hpt hN hs htoks hc
+  exact ⟨args, s, doc, h1, h2, h3, fun tab => ⟨_, h5 tab, h4 tab⟩⟩
+
+/-- **Acceptance.**  For every valid ms-expressible graph `g` of constant sizes whose pulses are tame, every
+`N0 > 0`, well-formed `samples`, and number codec that covers the numbers of the command: `from_ms` accepts
+the command `to_ms` prints. -/
+theorem ms_roundtrip_accepts (c : NumCodec) (sa : Growth → String) {g : Graph} (hv : Spec.validGraph g = true)
+    (hx : MsExpressible g = true) (hcs : ConstSizes g = true) (hpt : PulsesTame g = true) {N0 : Q} (hN : 0 < N0)
+    {samples : Option (List Int)} (hs : samplesOk g samples = true) {toks : List (Tok Growth)}
+    (htoks : toMs g N0 samples = .ok toks) (hc : CodecCovers c toks) :
+    ∃ mg, fromMs (renderG c sa toks) N0 none = .ok mg := by
+  obtain ⟨mg, h, _⟩ := Proofs.MsAcc.ms_roundtrip_accepts c sa hv hx hcs hpt hN hs htoks hc
+  exact ⟨mg, h⟩
+
+/-- **Graph → ms → graph.**  `ms_roundtrip_sem_tame` without its acceptance hypothesis: for a valid
+ms-expressible graph `g` of constant sizes with exact ancestry proportions and tame pulses, `N0 > 0`, and a
+codec that covers the numbers of the command, `from_ms(to_ms(g, N0), N0)` returns a graph `mg`; the printed
+command has a meaning `sem` under the ms interpreter, equivalent (`semEquiv`) to the observable `rs` of the
+returned graph; and both describe the demography `gs` of `g` on the lifetimes of its demes (`SemRefines`). -/
+theorem ms_roundtrip_sem (c : NumCodec) (sa : Growth → String) {g : Graph} (hv : Spec.validGraph g = true)
+    (hx : MsExpressible g = true) (hex : ExactProportions g = true) (hcs : ConstSizes g = true)
+    (hpt : PulsesTame g = true)
+    {N0 : Q} (hN : 0 < N0) {samples : Option (List Int)} (hs : samplesOk g samples = true)
+    {toks : List (Tok Growth)} (htoks : toMs g N0 samples = .ok toks) (hc : CodecCovers c toks) :
+    ∃ mg sem rs gs, fromMs (renderG c sa toks) N0 none = .ok mg
+      ∧ msSem (renderG c sa toks) N0 = .ok sem ∧ resultSem mg = .ok rs
+      ∧ graphSem (inGenerations g) none = .ok gs
+      ∧ semEquiv sem rs = true ∧ SemRefines sem gs ∧ SemRefines rs gs :=
+  Proofs.MsAcc.ms_roundtrip_sem c sa hv hx hex hcs hpt hN hs htoks hc
+
+/-- **Graph → ms → graph, for every valid ms-expressible graph of constant sizes with tame pulses.**  No
+hypothesis on the ancestry proportions and none on `from_ms`: `from_ms(to_ms(g, N0), N0)` returns a graph
+`mg`; the printed command has a meaning `sem` under the ms interpreter, equivalent to the observable `rs` of
+`mg`; and both describe the demography of `normalizeProportions g` — `g` itself when its ancestry proportions
+sum to exactly 1 (`normalizeProportions_exact`), and otherwise `g` with every proportion moved by at most a
+relative 1e-9/(1-1e-9) (`normalizeProportions_close`), because `to_ms` renormalises.
+(`ms_roundtrip_accepts` + `ms_roundtrip_sem_tame_norm`.) -/
+theorem ms_roundtrip_sem_all (c : NumCodec) (sa : Growth → String) {g : Graph} (hv : Spec.validGraph g = true)
+    (hx : MsExpressible g = true) (hcs : ConstSizes g = true) (hpt : PulsesTame g = true)
+    {N0 : Q} (hN : 0 < N0) {samples : Option (List Int)} (hs : samplesOk g samples = true)
+    {toks : List (Tok Growth)} (htoks : toMs g N0 samples = .ok toks) (hc : CodecCovers c toks) :
+    ∃ mg sem rs gs, fromMs (renderG c sa toks) N0 none = .ok mg
+      ∧ msSem (renderG c sa toks) N0 = .ok sem ∧ resultSem mg = .ok rs
+      ∧ graphSem (inGenerations (normalizeProportions g)) none = .ok gs
+      ∧ semEquiv sem rs = true ∧ SemRefines sem gs ∧ SemRefines rs gs := by
+  obtain ⟨mg, hfrom⟩ := ms_roundtrip_accepts c sa hv hx hcs hpt hN hs htoks hc
+  obtain ⟨sem, rs, gs, h1, h2, h3, h4, h5, h6⟩ :=
+    ms_roundtrip_sem_tame_norm c sa hv hx hcs hpt hN hs htoks hc hfrom
+  exact ⟨mg, sem, rs, gs, hfrom, h1, h2, h3, h4, h5, h6⟩
+
+/-! ### the hypothesis `PulsesTame`, with its witnesses -/
+
+/-- **`PulsesTame` cannot be dropped (F6).**  `twoDemePulse 1` (a pulse of proportion 1) is valid,
+ms-expressible, of constant sizes, with exact proportions; the codec covers its command
+`-I 2 0 0 -es 1.0 2 0.0 -ej 1.0 3 1`; and `from_ms` rejects that command (`accepted`: `from_ms` of the rendered
+`to_ms` output succeeds).  It is not `PulsesTame`. -/
+theorem ms_roundtrip_accepts_counterexample_pulse1 :
+    Spec.validGraph (twoDemePulse 1) = true ∧ MsExpressible (twoDemePulse 1) = true ∧ ConstSizes (twoDemePulse 1) = true
+    ∧ ExactProportions (twoDemePulse 1) = true ∧ PulsesTame (twoDemePulse 1) = false
+    ∧ (match toMs (twoDemePulse 1) 1 none with
+       | .ok toks => decide (CodecCovers tableCodec toks)
+       | .error _ => false) = true
+    ∧ accepted (twoDemePulse 1) 1 = false :=
+  Proofs.MsAcc.accepts_counterexample_pulse1
+
+/-- the second clause of `PulsesTame` (of two pulses at one time the one listed first does not go into the
+source of the one listed later) is sufficient, not necessary, for acceptance: pulses `A → B` (listed first),
+`B → C` at one time, proportions 1/2 — not `PulsesTame`, accepted -/
+theorem ms_roundtrip_accepts_order_not_necessary :
+    Spec.validGraph Proofs.MsRT.chainGraph = true ∧ PulsesTame Proofs.MsRT.chainGraph = false
+    ∧ Proofs.MsRT.chainGraph.pulses.all (fun p => p.proportions.all (fun x => decide (x < 1))) = true
+    ∧ accepted Proofs.MsRT.chainGraph 1 = true :=
+  Proofs.MsAcc.accepts_order_not_necessary
+
+/-- A remark on the tolerance of the validation: a valid graph may have a total migration rate into a deme
+above one, within `1e-9` (`ingressOk`); `to_ms` / `from_ms` carry the rates over exactly, so the returned
+graph has the same total and passes the same check — which is why the invariant of the matrix history is
+stated with `ingressOk` and not with `≤ 4·N0`: for three constant demes with migrations into `C` at rates `1/2`
+and `1/2 + 10⁻¹⁰` every hypothesis holds, and at the end of the event loop (`N0 = 1`) the rates into
+population 3 sum to `4 + 4·10⁻¹⁰`. -/
+theorem ingress_tolerance_witness :
+    ∃ g args s, Spec.validGraph g = true ∧ MsExpressible g = true ∧ ConstSizes g = true ∧ PulsesTame g = true
+      ∧ Spec.C08.ArgsAgree args (Proofs.MsRT.prOf (Proofs.ToMs.headerOf g none) (Proofs.ToMs.finalEvs g 1))
+      ∧ Proofs.FromMs.buildState args 1 = .ok s ∧ Proofs.MsAcc.MigWF 1 s
+      ∧ ¬ (Spec.qsumS (Proofs.MsAcc.ingressRow s 2 0) ≤ 4 * 1) :=
+  Proofs.MsAcc.ingress_le_counterexample
+
+/-! ### non-vacuity of §6 -/
+
+/-- every hypothesis of `ms_roundtrip_accepts` (`acceptHyps`, Proofs/MsAccExamples.lean: valid, ms-expressible,
+constant sizes, tame pulses, `N0 > 0`, `to_ms` succeeds, `tableCodec` covers the command) holds for: a branch
+with a migration; an admixture with two ancestors (`-es` creates a population that `from_ms` removes as a
+transient deme); a pulse of proportion 1/2; a graph in years whose ancestor changes size when its descendant
+starts (`-en` and `-ej` at one time) with a migration that starts late; the admixture with three migrations,
+two of them into one deme with total rate exactly one (`-em` switched on and off); also with `N0 = 2` -/
+example : acceptHyps branchMig 1 = true := by decide +kernel
+example : acceptHyps admixture 1 = true := by decide +kernel
+example : acceptHyps admixture 2 = true := by decide +kernel
+example : acceptHyps (twoDemePulse (1/2)) 1 = true := by decide +kernel
+example : acceptHyps twoEpochs 1 = true := by decide +kernel
+example : acceptHyps admixMig 1 = true := by decide +kernel
+
+/-- `acceptHyps` is the list of hypotheses, and the theorems apply -/
+example {g : Graph} {N0 : Q} (h : acceptHyps g N0 = true) : accepted g N0 = true :=
+  Proofs.MsAcc.accepted_of_hyps h
+example := Proofs.MsAcc.roundTrip_of_acceptHyps (g := admixture) (N0 := 1) (by decide +kernel) (by decide +kernel)
+
+/-- the conclusion evaluated independently of the theorem; and it is not vacuous: it fails for the F6 graph -/
+example : [branchMig, admixture, twoDemePulse (1/2), twoEpochs, admixMig].map (fun g => accepted g 1)
+    = [true, true, true, true, true] := by decide +kernel
+example : accepted (twoDemePulse 1) 1 = false := by decide +kernel
+
+/-- the hypotheses of the general `buildState_never_raises` on a concrete command (not a `to_ms` output: `-en`
+before a split, a pulse, a join) -/
+example : ∃ args pr σ s, parseKnownArgs Proofs.MsAcc.exTokens = .ok args ∧ Spec.MsSem.parse Proofs.MsAcc.exTokens = .ok pr
+    ∧ Spec.C08.ArgsAgree args pr ∧ Spec.C08.runState pr 1 = .ok σ ∧ Proofs.FromMs.buildState args 1 = .ok s := by
+  have h := Proofs.MsAcc.exTokens_ok
+  cases ha : parseKnownArgs Proofs.MsAcc.exTokens with
+  | error e => rw [ha] at h; cases h
+  | ok args =>
+    cases hp : Spec.MsSem.parse Proofs.MsAcc.exTokens with
+    | error e => rw [ha, hp] at h; cases h
+    | ok pr =>
+      rw [ha, hp] at h
+      simp only [Bool.and_eq_true] at h
+      have hag := Spec.C08.argsAgree_of_B h.1
+      cases hr : Spec.C08.runState pr 1 with
+      | error e => rw [hr] at h; exact absurd h.2 (by simp [Except.toOption])
+      | ok σ =>
+        obtain ⟨s, hs⟩ := buildState_never_raises (by decide +kernel) hag hr
+        exact ⟨args, pr, σ, s, rfl, rfl, hag, hr, hs⟩
+
+/-! ## Non-vacuity (§§1–5) -/
 
 /-- the codec hypothesis is satisfiable: `tableCodec` is a `NumCodec`; these numbers are in its
 domain and printed as CPython prints them -/
